@@ -112,10 +112,18 @@ func VerifC13_MalformedResponse() {
 	}
 	bad, what := verifMalformedChild("a")
 	children := []*unstructured.Unstructured{bad}
-	if rt.Bool("second-valid-child") {
+	switch rt.Choice("second-entry", 4) {
+	case 1:
 		good := env.ConfigMap("ns", "b", "", "v")
 		env.SetLabel(good, "app", "x")
 		children = append(children, good)
+	case 2:
+		// two adjacent nulls when the first one is null too
+		children = append(children, nil)
+	case 3:
+		good := env.ConfigMap("ns", "b", "", "v")
+		env.SetLabel(good, "app", "x")
+		children = append(children, nil, nil, good)
 	}
 	var status map[string]interface{}
 	statusKind := rt.Choice("status", 3)
